@@ -192,7 +192,9 @@ Theorem C10_sound_seq : forall ts ss,
 Proof. exact parse_sound_seq. Qed.
 Print Assumptions C10_sound_seq.
 
-(* NOT PROVED (partial): soundness for token lists with newlines (skipped inside argument lists,
+(* String interpolation is part of all the theorems above: `SInterp` trees are in `sx` (C10_roundtrip,
+   C10_sound_core, C10_characterised), the lexer model carries the tokenizer's scope stack.
+   NOT PROVED (partial): soundness for token lists with newlines (skipped inside argument lists,
    conditionals and literals), trailing commas, and for the definition forms (fn, unit, dimension, struct,
    use, annotated / decorated let), for which only the direction C10_roundtrip_def is proved.
    There the correspondence check and the reference recogniser decide. *)
@@ -341,4 +343,25 @@ Example C10_ex_identifiers :
   /\ word_token [120; 121; 49]%N = TIdent [120; 121; 49]%N
   /\ word_token [108; 101; 116]%N = TKw KLet
   /\ scan_single_token st co [] None [120; 121; 49; 32; 43]%N = LOk (Some (TIdent [120; 121; 49]%N), [32; 43]%N, []).
+Proof. vm_compute. repeat split; reflexivity. Qed.
+
+(* interpolated strings: the text  "a{x+1:.2f}b{y}"  is lexed into the opening part, the tokens of the
+   first expression, its format specifiers, the middle part, the second expression and the closing
+   part (scope stack and last-token state of the tokenizer); the parser reads the token list as the
+   documented parts; an empty interpolation and a struct brace inside one are errors *)
+Example C10_ex_interpolation :
+  let st := fun c : N => in_range 97 122 c in
+  let co := fun c : N => in_range 97 122 c || in_range 48 57 c in
+  let text := [34; 97; 123; 120; 43; 49; 58; 46; 50; 102; 125; 98; 123; 121; 125; 34]%N in
+  let t := SInterp [34; 97; 123]%N
+             [(SBin TPlus (id_ 120) (num_ 49), Some [58; 46; 50; 102]%N, [125; 98; 123]%N);
+              (id_ 121, None, [125; 34]%N)] in
+  tokenize st co text = LOk (pr t)
+  /\ wf t = true
+  /\ parse (pr t) = Ok [StExpr (EInterp [PFixed [97]%N; PExpr (EBin Add (EIdent [120]%N) (EScalar [49]%N)) (Some [58; 46; 50; 102]%N);
+                                          PFixed [98]%N; PExpr (EIdent [121]%N) None])] []
+  /\ parse [TInterpStart [34; 123]; TInterpEnd [125; 34]]%N = Err EmptyStringInterpolation
+  /\ parse [TInterpStart [34; 123]; TIdent [120]]%N = Err UnterminatedStringParse
+  /\ tokenize st co [34; 123; 120; 123; 125; 125; 34]%N = LErr UnexpectedCurlyInInterpolation
+  /\ tokenize st co [34; 123; 120; 32; 34; 98; 34; 125; 34]%N = LErr UnterminatedStringInterpolation.
 Proof. vm_compute. repeat split; reflexivity. Qed.
